@@ -17,24 +17,49 @@ Theorem C11_refs_confined_every_step :
   forall p a pth, In (OWrite p a pth) o -> confined c p a pth.
 Proof. exact step_refs_confined. Qed.
 
+(* whole traces, including traces in which identity documents change between
+   events (ESetDoc, e.g. public -> private) and the node restarts (ERestart):
+   every step is judged against the documents in force at that step
+   ([all_confined], proofs/GossipProofs.v) *)
 Theorem C11_refs_confined_every_trace :
-  forall c es s s' os, run c s es = Some (s', os) ->
-  forall o p a pth, In o os -> In (OWrite p a pth) o -> confined c p a pth.
+  forall es c s, all_confined c s es.
 Proof. exact run_refs_confined. Qed.
 
 (* inventory announcements under our name list public local repositories only,
-   for every trace whose AddInventory commands respect their precondition
-   (radicle-cli only issues it for public repositories) *)
+   for every trace with static identity documents whose AddInventory commands
+   respect their precondition (radicle-cli only issues it for public repositories) *)
 Theorem C11_inventory_public_only :
-  forall c now nts inv known0 es s' os,
-  (forall rid, In rid inv -> public c rid) -> Forall (cmd_ok c) es ->
+  forall c now nts inv known0 es s' os, sorted (c_storage c) ->
+  (forall rid, In rid inv -> public c rid) -> Forall (fun e => cmd_ok c e /\ no_setdoc e) es ->
   run c (init_state c now nts inv known0) es = Some (s', os) ->
   forall o p a pth, In o os -> In (OWrite p a pth) o -> own_inv_public c a.
 Proof.
-  exact (fun c now nts inv known0 es s' os Hinv Hcmd Hrun =>
-    run_inventory_public c es _ s' os
+  exact (fun c now nts inv known0 es s' os Hcs Hinv Hcmd Hrun =>
+    run_inventory_public c Hcs es _ s' os
       (proj1 (proj2 (init_state_inv29 c now nts inv known0)))
       (init_state_invpub c now nts inv known0 Hinv) Hcmd Hrun).
+Qed.
+
+(* when documents do change: a restart rebuilds the cached inventory from the
+   documents in force, whatever state the node was in *)
+Theorem C11_restart_rebuilds_inventory_from_current_documents :
+  forall c s s' o, sorted (c_storage c) -> step c s ERestart = Ok s' o ->
+  forall rid, In rid (inv_rids s') -> public c rid.
+Proof. exact restart_inventory_public. Qed.
+
+(* KNOWN FINDING (class c11-inventory-lists-repo-made-private): between a
+   visibility change public -> private and the next restart (and, for the stored
+   copy of the last inventory announcement, until it is replaced) the node keeps
+   announcing the repository in its inventory.  Witness: *)
+Definition c11_pub_cfg := mkCfg 0 true [(4, mkDoc true [])] [4] [].
+Theorem C11_inventory_after_going_private_witness :
+  exists s os, run c11_pub_cfg (init_state c11_pub_cfg 1000 1001 [4] [0])
+                 [ESetDoc 4 (mkDoc false []); EConnect 1] = Some (s, os) /\
+    In [OWrite 1 (mkAnn 0 KNode 0 1001 true [] false true) PInitial;
+        OWrite 1 (mkAnn 0 KInv 0 1002 true [4] false false) PInitial] os.
+Proof.
+  destruct (run c11_pub_cfg _ _) as [[s os]|] eqn:E; vm_compute in E; [|discriminate].
+  inversion E; subst; clear E. eexists; eexists; split; [reflexivity|]. cbn; auto 10.
 Qed.
 
 (* KNOWN FINDING (class c11-refs-leak-repo-absent-from-storage): a stored refs
